@@ -120,7 +120,13 @@ _names = st.one_of(st.sampled_from(["a", "b", "c", "x", "y", "z", "col", "A", "v
 
 
 @st.composite
-def column(draw, name, kinds=ALL_KINDS, thorough=False, nulls=True, subs=None):
+def column(draw, name, kinds=ALL_KINDS, thorough=False, nulls=True, subs=None, like=None):
+    """`like`: an existing column spec whose static attributes (kind, sub, unit, tz, label
+    kind, ordered) are kept, so that the new column is schema-compatible with it."""
+    if like is not None:
+        kinds = [like["kind"]]
+        if like.get("sub"):
+            subs = [like["sub"]]
     kind = draw(st.sampled_from(kinds))
     col = {"name": name, "kind": kind}
     idx = draw(st.lists(st.integers(0, 11), min_size=1, max_size=24))
@@ -134,12 +140,12 @@ def column(draw, name, kinds=ALL_KINDS, thorough=False, nulls=True, subs=None):
         col["pool"] = draw(st.lists(ints_for(sub), min_size=1, max_size=12))
         col["null"] = {"pat": "none", "mask": []}
     elif kind == "float":
-        sub = draw(st.sampled_from(["float32", "float64"]))
+        sub = draw(st.sampled_from([like["sub"]] if like else ["float32", "float64"]))
         col["sub"] = sub
         col["pool"] = draw(st.lists(floats_for(sub), min_size=1, max_size=12))
         col["null"] = draw(null_spec(nulls))
     elif kind == "text":
-        col["sub"] = draw(st.sampled_from(["object", "object", "str"]))
+        col["sub"] = draw(st.sampled_from([like["sub"]] if like else ["object", "object", "str"]))
         col["pool"] = draw(st.lists(text_values(thorough), min_size=1, max_size=12))
         col["null"] = draw(null_spec(nulls))
     elif kind == "bytes":
@@ -149,14 +155,14 @@ def column(draw, name, kinds=ALL_KINDS, thorough=False, nulls=True, subs=None):
         col["pool"] = draw(st.lists(json_values, min_size=1, max_size=6))
         col["null"] = draw(null_spec(nulls))
     elif kind in ("datetime", "timedelta"):
-        unit = draw(st.sampled_from(UNITS))
+        unit = draw(st.sampled_from([like["unit"]] if like else UNITS))
         col["unit"] = unit
         if kind == "datetime":
-            col["tz"] = draw(st.sampled_from(TZS))
+            col["tz"] = draw(st.sampled_from([like.get("tz")] if like else TZS))
         col["pool"] = draw(st.lists(ticks_for(unit, kind), min_size=1, max_size=12))
         col["null"] = draw(null_spec(nulls))
     elif kind == "category":
-        lk = draw(st.sampled_from(["text", "text", "int", "float"]))
+        lk = draw(st.sampled_from([like["labels"]] if like else ["text", "text", "int", "float"]))
         col["labels"] = lk
         if lk == "text":
             cats = draw(st.lists(text_values(False), min_size=1, max_size=10, unique=True))
@@ -171,7 +177,7 @@ def column(draw, name, kinds=ALL_KINDS, thorough=False, nulls=True, subs=None):
             big = draw(st.sampled_from([127, 128, 129, 300]))
             cats = (["c%05d" % i for i in range(big)] if lk == "text" else list(range(1000, 1000 + big)))
         col["cats"] = cats
-        col["ordered"] = draw(st.booleans())
+        col["ordered"] = like.get("ordered", False) if like else draw(st.booleans())
         col["null"] = draw(null_spec(nulls))
     elif kind == "nullable":
         sub = draw(st.sampled_from(subs or NULLABLE_SUBS))
@@ -283,3 +289,21 @@ def frame_and_options(draw, thorough=False, **kw):
     opt_kw = {k: kw.pop(k) for k in ("schemes",) if k in kw}
     fr = draw(frame(thorough=thorough, **kw))
     return {"frame": fr, "opts": draw(options(fr, thorough=thorough, **opt_kw))}
+
+
+@st.composite
+def compatible_frame(draw, fr, thorough=False, rows=None, same_categories=False):
+    """A frame with the same column names, dtypes and index shape as `fr`, fresh values."""
+    rows = rows or [0, 1, 2, 3, 5, 8, 9, 17]
+    n = draw(st.one_of(st.sampled_from(rows), st.integers(0, 12)))
+    cols = []
+    for c in fr["cols"]:
+        nc = draw(column(c["name"], thorough=thorough, like=c,
+                         nulls=(c.get("null") or {}).get("pat", "none") != "none" or c["kind"] not in ("bool", "int")))
+        if same_categories and c["kind"] == "category":
+            nc["cats"] = list(c["cats"])
+        cols.append(nc)
+    idx = None
+    if fr.get("index") is not None:
+        idx = draw(column(fr["index"]["name"], thorough=thorough, like=fr["index"], nulls=False))
+    return {"n": n, "cols": cols, "index": idx}
